@@ -328,6 +328,25 @@ func c17Doc(c *fw.Ctx) (corpusDoc, string) {
 	return d, "valid"
 }
 
+type c17SlowReader struct {
+	r      io.Reader
+	n      int
+	paused bool
+}
+
+func (s *c17SlowReader) Read(p []byte) (int, error) {
+	if s.n >= 1024 && !s.paused {
+		s.paused = true
+		time.Sleep(700 * time.Millisecond)
+	}
+	if len(p) > 376 {
+		p = p[:376]
+	}
+	n, err := s.r.Read(p)
+	s.n += n
+	return n, err
+}
+
 func c17Run(c *fw.Ctx) fw.Outcome {
 	d, variant := c17Doc(c)
 	n := len(d.Data)
@@ -556,6 +575,15 @@ func c17Run(c *fw.Ctx) fw.Outcome {
 		}},
 		{"iotest.HalfReader", func() io.Reader { return iotest.HalfReader(bytes.NewReader(d.Data)) }},
 		{"iotest.DataErrReader", func() io.Reader { return iotest.DataErrReader(bytes.NewReader(d.Data)) }},
+	}
+	if d.Format == "teletext" {
+		// a source that hesitates (a network stream): what is read does not depend on how long it takes
+		kinds = append(kinds, struct {
+			name string
+			mk   func() io.Reader
+		}{"a reader that cannot seek and pauses for 0.7 s after its first kilobyte", func() io.Reader {
+			return &c17SlowReader{r: bytes.NewReader(d.Data)}
+		}})
 	}
 	if n <= 65536 {
 		kinds = append(kinds, struct {
